@@ -27,6 +27,14 @@ pub fn route_kp(a: &Args) {
         .collect();
     let hint = a.opt_u128("hint").map(|x| x as usize);
     let rt = tokio::runtime::Builder::new_current_thread().enable_time().build().unwrap();
-    let out = rt.block_on(rp::route_key_persistent(&workers, a.u64("key"), a.usize("pool_size"), hint));
+    let router = if a.str("router").is_empty() { "key_persistent" } else { a.str("router") };
+    let out = rt.block_on(rp::route_step(router, &workers, a.u64("key"), a.usize("pool_size"), hint));
+    println!("out={}", out.replace('=', "~"));
+}
+
+/// dead_window router=<key_persistent|sticky>
+pub fn dead_window(a: &Args) {
+    let rt = tokio::runtime::Builder::new_current_thread().enable_time().build().unwrap();
+    let out = rt.block_on(rp::dead_worker_window(a.str("router")));
     println!("out={}", out.replace('=', "~"));
 }
